@@ -217,6 +217,13 @@ func (h *halfPipe) unread() int {
 	return len(h.buf)
 }
 
+// written is the number of octets this half has taken so far
+func (h *halfPipe) written() int64 {
+	h.mu.Lock()
+	defer h.mu.Unlock()
+	return h.total
+}
+
 func (h *halfPipe) setFailAfter(n int64) {
 	h.mu.Lock()
 	h.failAfter = n
